@@ -5,10 +5,12 @@ import (
 	"encoding/binary"
 	"encoding/json"
 	"fmt"
+	"io"
 	"strings"
 
 	netty "github.com/go-netty/go-netty"
 	"github.com/go-netty/go-netty/codec/format"
+	"github.com/go-netty/go-netty/codec/frame"
 	"github.com/go-netty/go-netty/verifsim/simnet"
 )
 
@@ -104,13 +106,22 @@ var c16Texts = []string{"hello", "", "\x00nul\x00", "\xff\xfe invalid utf8 \xc3"
 
 //go:norace
 func runC16(e *Env) {
-	frameKind := []int{fkLengthField, fkVarint, fkDelimiter}[e.P(3)]
+	frameKind := []int{fkLengthField, fkVarint, fkDelimiter, fkLengthField}[e.P(4)]
 	spec := &FrameSpec{Kind: frameKind, Order: binary.BigEndian, FieldLen: 4, Strip: 4, Max: 1 << 20, Delim: "\n", StripDelim: true}
 	isJSON := e.P(2) == 1
 	useNumber := e.P(2) == 0
 	strict := e.P(2) == 1
 	inject := e.P(3) == 2 // the peer injects reference-framed (possibly malformed) frames instead of using the encoder channel
+	// message-per-read carrier: the variable-length codec hands its own reusable read buffer downstream; every
+	// message arrives as one transport read (the peer waits until the previous one was delivered)
+	variable := !isJSON && e.P(4) == 3
+	if variable {
+		inject = true
+	}
 	mk := func() []netty.Handler {
+		if variable {
+			return []netty.Handler{frame.VariableLengthCodec(8192), format.TextCodec()}
+		}
 		if isJSON {
 			return []netty.Handler{spec.Codec(), format.JSONCodec(useNumber, strict)}
 		}
@@ -118,6 +129,9 @@ func runC16(e *Env) {
 	}
 	dec := e.NewRig(ChanCfg{}, false)
 	dec.Conn.Frag = e.P(4)
+	if variable {
+		dec.Conn.Frag = simnet.FragWhole
+	}
 	sink := &objSink{}
 	decPl := netty.NewPipeline()
 	for _, h := range mk() {
@@ -135,6 +149,7 @@ func runC16(e *Env) {
 	var exps []expect
 	var sendObjs []interface{} // via the encoder channel
 	var frames [][]byte        // injected
+	cutFrame := -1             // this frame's header declares more bytes than are sent; the stream ends after it
 	n := 1 + e.P(5)
 	for i := 0; i < n; i++ {
 		if !isJSON {
@@ -144,6 +159,9 @@ func runC16(e *Env) {
 			}
 			if frameKind == fkDelimiter {
 				s = strings.ReplaceAll(s, "\n", "_")
+			}
+			if variable && s == "" {
+				s = "v"
 			}
 			exps = append(exps, expect{0, s, fmt.Sprintf("text %q", clipS(s, 30))})
 			sendObjs = append(sendObjs, s)
@@ -159,7 +177,18 @@ func runC16(e *Env) {
 		kind := 0
 		desc := "object " + clipS(string(body), 60)
 		if inject {
-			switch e.P(6) {
+			switch e.P(9) {
+			case 6:
+				body = append(body, '}')
+				kind, desc = 2, "object followed by a stray closing brace"
+			case 7:
+				body = append(body, []byte(" ]junk")...)
+				kind, desc = 2, "object followed by ' ]junk'"
+			case 8:
+				if frameKind != fkDelimiter && cutFrame < 0 {
+					cutFrame = i
+					kind, desc = 1, "complete object in a frame whose declared length is longer than what arrives before EOF"
+				}
 			case 1:
 				body = body[:len(body)/2]
 				kind, desc = 1, "truncated object"
@@ -190,7 +219,7 @@ func runC16(e *Env) {
 	if isJSON {
 		codecName = fmt.Sprintf("json(useNumber=%v,disallowUnknown=%v)", useNumber, strict)
 	}
-	e.Describe("frame=%s codec=%s frames=%d injected-by-peer=%v read fragmentation=%d", fkNames[frameKind], codecName, n, inject, dec.Conn.Frag)
+	e.Describe("frame=%s codec=%s frames=%d injected-by-peer=%v read fragmentation=%d variable-length-carrier=%v", fkNames[frameKind], codecName, n, inject, dec.Conn.Frag, variable)
 	for i, x := range exps {
 		e.Describe("frame %d: %s (expect %s)", i, x.Desc, []string{"delivery", "exception", "delivery or exception"}[x.Kind])
 	}
@@ -223,10 +252,23 @@ func runC16(e *Env) {
 			return
 		}
 		e.Go("peer", func() {
-			for _, b := range frames {
+			for i, b := range frames {
+				if variable {
+					e.Step()
+					dec.Conn.Feed(b)
+					for w := 0; w < 200 && len(sink.Got) <= i && len(sink.Ex) == 0; w++ {
+						e.Step()
+					}
+					continue
+				}
 				w, ok := spec.RefEncode(b)
 				if !ok {
 					continue
+				}
+				if i == cutFrame {
+					// declare 9 more bytes than will ever arrive, then end the stream
+					w2, _ := spec.RefEncode(append(append([]byte(nil), b...), "123456789"...))
+					w = w2[:len(w2)-9]
 				}
 				for len(w) > 0 {
 					e.Step()
@@ -237,11 +279,20 @@ func runC16(e *Env) {
 					dec.Conn.Feed(w[:k])
 					w = w[k:]
 				}
+				if i == cutFrame {
+					e.Step()
+					dec.Conn.EndInput(io.EOF, false)
+					return
+				}
 			}
 		})
 	})
 	e.RunToEnd()
-	cls := fmt.Sprintf("%s,%s", fkNames[frameKind], map[bool]string{true: "json", false: "text"}[isJSON])
+	carrier := fkNames[frameKind]
+	if variable {
+		carrier = "variable-length"
+	}
+	cls := fmt.Sprintf("%s,%s", carrier, map[bool]string{true: "json", false: "text"}[isJSON])
 	// ---- oracle ----
 	gi := 0
 	stopped := false
